@@ -23,7 +23,9 @@ _NAMES = ("guarded_content_confined", "reply_ok_meaning", "range_of_clean_body_c
           "refused_reply_is_404", "hidden_file_indistinguishable_from_absent", "error_page_line_v0_refuted",
           "tmpl_names_guarded_file_refuted", "allow_404_template_refuted", "file_cache_transparent",
           "guarded_content_confined_with_file_cache",
-          "private_spelling_v0_refuted", "cache_directive_v0_refuted", "violates_contradicts_confined")
+          "private_spelling_v0_refuted", "cache_directive_v0_refuted", "violates_contradicts_confined",
+          "guarded_content_confined_changing_files", "changing_files_extends_fixed_files", "scenario_without_writes_unchanged",
+          "guard_line_any_length", "long_allow_list_decides", "vary_admission_v0_refuted", "violates_w_contradicts_confined")
 THEOREMS = [(n, _PINS[n]) for n in _NAMES]
 RULE = ("(1) guards.run: histories of requests against the real kvarn::handle_cache in process (host = Extensions::empty() or, for a third of the "
         "scenarios, Extensions::new() [default Prime 'Expand . and /': /e/ -> /e/index.html, /r. -> /r.html; CORS denial route], + "
@@ -134,6 +136,11 @@ def py_ip(a):
 
 def greq(target, method=b"GET", addr=1, headers=(), body=b""):
     return xl(xn(0), xaddr(addr), xb(method), xb(target), xlist([xl(xb(k), xb(v)) for k, v in headers]), xb(body))
+
+
+def gwrite(rel, data):
+    """the fixture (re)writes public/<rel> between two requests of the history"""
+    return xl(xn(4), xb(rel), xb(data))
 
 
 def wreq(target, method, addr, headers, allow, twin):
@@ -461,6 +468,27 @@ def witnesses(rng):
            greq(b"/a.txt", addr=2, headers=[(b"x-forwarded-for", b"10.0.0.1"), (b"forwarded", b"for=10.0.0.1"), (b"x-real-ip", b"10.0.0.1")]),
            greq(b"/v6.txt", addr=V6("::1"), headers=[(b"x-forwarded-for", b"2001:db8::1"), (b"client-ip", b"::ffff:10.0.0.1")])]
     cases += mk(rng, files, ops, "corpus/address-families")
+    # files that change (theorem guarded_content_confined_changing_files; vary_admission_v0_refuted is the first history): the page is in the
+    # cache of a path with a vary rule, then gets an allow-ips line; a listed client asks for another variant, then a stranger does
+    pvary = [pipe.vary_rule(b"/page.html", [(b"x-v", 0, b"-")])]
+    grd = b"!> allow-ips 10.0.0.1\nSECRET:page.html:000014; for 10.0.0.1 only"
+    for first in ([xl(xb(b"public/page.html"), xb(b"PUBLIC:page.html:000015; public for now"))], []):
+        ops = [greq(b"/page.html", addr=2, headers=[(b"x-v", b"a")]), gwrite(b"page.html", grd),
+               greq(b"/page.html", addr=1, headers=[(b"x-v", b"b")]), greq(b"/page.html", addr=2, headers=[(b"x-v", b"b")]),
+               greq(b"/page.html", addr=1, headers=[(b"x-v", b"b")]), greq(b"/page.html", addr=3, headers=[(b"x-v", b"B")], method=b"HEAD"),
+               greq(b"/page.html", addr=2, headers=[(b"x-v", b"a")]), greq(b"/page.html", addr=2),
+               gwrite(b"page.html", b"!> allow-ips 10.0.0.2 &> cache server:full\nSECRET:page.html:000016; for 10.0.0.2 only"),
+               greq(b"/page.html", addr=2, headers=[(b"x-v", b"c")]), greq(b"/page.html", addr=1, headers=[(b"x-v", b"c")]),
+               greq(b"/page.html", addr=1, headers=[(b"x-v", b"b")])]
+        cases += mk(rng, files + first, ops, "corpus/deploy-guard-on-cached-page", vary=pvary, default_ext=False)
+    # long '!> ' lines (theorem long_allow_list_decides): 60 addresses (more than 512 bytes), the listed one last; hide behind a long list
+    many = b" ".join(b"10.20.30.%d" % k for k in range(1, 61))
+    lfiles = [xl(xb(b"public/l60.txt"), xb(b"!> allow-ips " + many + b" 10.0.0.1\nSECRET:l60.txt:000017; sixty-one addresses")),
+              xl(xb(b"public/lh.txt"), xb(b"!> allow-ips 10.0.0.1 " + many + b" &> hide\nSECRET:lh.txt:000018; nobody")),
+              xl(xb(b"public/l6.txt"), xb(b"!> allow-ips " + b" ".join(b"2001:db8:0:%x::1" % k for k in range(1, 40)) + b" ::1\nSECRET:l6.txt:000019; IPv6 list"))]
+    cases += mk(rng, lfiles, [greq(b"/l60.txt", addr=1), greq(b"/l60.txt", addr=2), greq(b"/l60.txt", addr=V4("10.20.30.60")), greq(b"/l60.txt", addr=V4("10.20.30.61")),
+                              greq(b"/lh.txt", addr=1), greq(b"/lh.txt", addr=2), greq(b"/l6.txt", addr=V6("::1")), greq(b"/l6.txt", addr=V6("2001:db8:0:27::1")),
+                              greq(b"/l6.txt", addr=V6("2001:db8:0:28::1")), greq(b"/l6.txt", addr=1), greq(b"/l60%2Etxt", addr=3)], "corpus/long-line")
     # double decoding, invalid escapes, parameters
     cases += mk(rng, files, [greq(t, addr=a) for a in (1, 2) for t in
                              (b"/secret%252Eprivate", b"/secret.private%00", b"/secret.private%", b"/secret.private%zz", b"/secret.private;x", b"/secret%C0%AEprivate",
@@ -551,6 +579,210 @@ def expiry_cases(rng, n):
     return cases
 
 
+def transition_cases(rng, n):
+    """FILES THAT CHANGE during a history (theorem guarded_content_confined_changing_files): the path has a vary rule and an item in
+    the response cache that stems from an EARLIER version of the file (public page, other allow list, hidden) or from the time before
+    the file was deployed (cached 404); then the file is (re)written with a guard line; a listed client asks for a variant the item does
+    not hold (handle_vary_missing), then clients that are not listed ask for the same variant, for the old one, with and without
+    queries, HEAD, conditional; later versions (list edited, public again, guarded again) follow"""
+    cases = []
+    for i in range(n):
+        rel = rng.choice([b"page.html", b"t/doc.txt", b"news", b"q.md", b"d/w.css", b"idx/index.html"])
+        path = b"/" + rel
+        if rel == b"idx/index.html" and rng.random() < 0.5:
+            path_req, de = b"/idx/", True           # default Prime 'Expand . and /'
+        else:
+            path_req, de = path, None
+        sp = path_req if rng.random() < 0.6 else encode(path_req, rng.choice(dot_masks(path_req) + [rng.getrandbits(len(path_req) - 1)]), rng)
+        hv = b"x-v"
+        xf = rng.choice([0, 0, 1])
+        vals = [b"a", b"b", b"z", b"M"] if xf == 0 else [b"a", b"z", b"b", b"y"]      # transformed: distinct for xf 0; lo/hi/lo/hi for xf 1
+        # (the rules are those of the path after the rewriting Prime extensions)
+        rule_path = b"/idx/index.html" if de and sp == b"/idx/" else sp
+        vary = [pipe.vary_rule(rule_path, [(hv, xf, b"-")])] if rng.random() < 0.9 else None
+        start = rng.choice(["public", "public", "absent", "public-line", "hidden", "other-list"])
+        files = [xl(xb(b"public/other.txt"), xb(content(None, b"other.txt", rng, False)))]
+        if start == "public":
+            files.append(xl(xb(b"public/" + rel), xb(content(None, rel, rng, False))))
+        elif start == "public-line":
+            files.append(xl(xb(b"public/" + rel), xb(content(rng.choice(PLAIN_LINES[1:5]), rel, rng, False))))
+        elif start == "hidden":
+            files.append(xl(xb(b"public/" + rel), xb(content(rng.choice(HIDE_LINES), rel, rng, True))))
+        elif start == "other-list":
+            files.append(xl(xb(b"public/" + rel), xb(content(b"!> allow-ips 10.0.0.3", rel, rng, True))))
+        if rng.random() < 0.25:
+            files.append(xl(xb(b"errors/404.html"), xb(rng.choice(ERR404[3:7])[0])))
+        q = rng.choice([b"", b"", b"", b"?x=1"])
+        strangers = lambda: rng.choice(ADDRS[2:]) if rng.random() < 0.6 else rng.choice(STRANGERS)
+        ops = []
+        # the item enters the cache in the first world
+        first = rng.sample(vals, rng.randrange(1, 3))
+        for v in first:
+            ops.append(greq(sp + q, addr=strangers(), headers=[(hv, v)], method=rng.choice([b"GET", b"GET", b"HEAD"])))
+        if rng.random() < 0.3:
+            ops.append(greq(sp + q, addr=1, headers=[]))
+        rounds = rng.randrange(1, 4)
+        for rd in range(rounds):
+            kind_ = rng.choice(["allow", "allow", "allow", "allow6", "hide", "public"]) if rd else rng.choice(["allow", "allow", "allow", "allow6"])
+            listed = 1
+            if kind_ == "allow":
+                line = rng.choice(ALLOW_LINES[:14])
+            elif kind_ == "allow6":
+                line, who = rng.choice(V6_LINES[:12])
+                listed = who
+            elif kind_ == "hide":
+                line = rng.choice(HIDE_LINES)
+            else:
+                line = rng.choice(PLAIN_LINES[:5])
+            ops.append(gwrite(rel, content(line, rel, rng, kind_ != "public", crlf=rng.random() < 0.1)))
+            if rng.random() < 0.1:
+                ops.append(pipe.clear_page(sp + q))
+            fresh = [v for v in vals if v not in first] or vals
+            vb = rng.choice(fresh)
+            who1 = rng.choice(SAME_AS_1) if listed == 1 else listed
+            # a listed client asks for a variant the cached item lacks, then strangers ask for it
+            ops.append(greq(sp + q, addr=who1, headers=[(hv, vb)], method=rng.choice([b"GET", b"GET", b"GET", b"HEAD"])))
+            for _ in range(rng.randrange(1, 4)):
+                h = [(hv, rng.choice([vb, vb, vb, rng.choice(vals)]))]
+                if rng.random() < 0.2:
+                    h = h + fwd(rng)
+                if rng.random() < 0.15:
+                    h = h + rng.choice([[(b"if-modified-since", b"@T+100")], [(b"accept-encoding", b"gzip")], [(b"range", b"bytes=0-20")]])
+                ops.append(greq(sp + rng.choice([q, q, q, b"", b"?x=1"]), addr=strangers(), headers=h, method=rng.choice([b"GET", b"GET", b"GET", b"HEAD"])))
+            if rng.random() < 0.6:
+                ops.append(greq(sp + q, addr=who1, headers=[(hv, vb)]))
+                ops.append(greq(sp + q, addr=strangers(), headers=[(hv, vb)]))
+            if rng.random() < 0.3:
+                # without the vary header (the default variant), and the unencoded / another spelling of the path
+                ops.append(greq(sp + q, addr=who1, headers=[]))
+                ops.append(greq(sp + q, addr=strangers(), headers=[]))
+                ops.append(greq(path_req + q, addr=strangers(), headers=[(hv, vb)]))
+            first = first + [vb]
+        cases += mk(rng, files, ops, "transition/" + start, vary=vary, both=(i % 4 == 0), cache=True, default_ext=de)
+    return cases
+
+
+# line lengths (offset of the line feed). The Gallina parser transcribes the Rust loop with its slices (quadratic in the length of the
+# line), so the differential histories stop at 1025 bytes (4097 in the thorough tier); longer lines go through the wire component,
+# where the marker oracle and the refused-vs-absent comparison need no model
+LINE_EDGES = [255, 256, 257, 511, 512, 513, 1023, 1024, 1025]
+LINE_EDGES_4K = [4095, 4096, 4097]
+LINE_EDGES_BIG = [16383, 16384, 65535, 65536, 65537]
+
+
+def _fit(line, target, rng):
+    """extends a '!> ' line to exactly `target` bytes (the offset of its line feed), if it is shorter, by means that do not change its
+    meaning: more spaces between words, a long argument of a directive that is not mounted, or one more directive without effect"""
+    need = target - len(line)
+    if need <= 0:
+        return line
+    how = rng.choice(["spaces", "unknown", "cache"]) if need >= 20 else "spaces"
+    if how == "spaces":
+        return line + b" " * need
+    if how == "unknown":
+        return line + b" &> unknown-ext " + b"x" * (need - len(b" &> unknown-ext "))
+    return line + b" &> cache client:" + b"0" * (need - len(b" &> cache client:") - 3) + b"60s"
+
+
+def long_line(rng, edges, kmax=100, near=True):
+    """a guarded file with a long '!> ' line: (rel, line, crlf, listed client, other members of the list, shape)"""
+    shape = rng.choice(["v4-list", "v4-list", "v6-list", "mixed-list", "many-directives", "long-arg", "hide-last", "allow-last", "two-lists"])
+    k = min(kmax, rng.choice([1, 5, 20, 30, 42, 43, 44, 50, 60, 80, 100, rng.randrange(1, 101)]))
+    v4 = [b"10.20.%d.%d" % (rng.randrange(256), rng.randrange(1, 255)) for _ in range(k)]
+    v6 = [(b"2001:db8:%x:%x::%x" % (rng.randrange(65536), rng.randrange(65536), rng.randrange(1, 65536))) for _ in range(k)]
+    listed = 1
+    me = b"10.0.0.1"
+    if shape in ("v6-list",):
+        pool, me, listed = v6, b"2001:db8::1", V6("2001:db8::1")
+    elif shape == "mixed-list":
+        pool = [rng.choice(pair) for pair in zip(v4, v6)]
+    else:
+        pool = v4
+    pos = rng.choice([0, len(pool) // 2, len(pool)])
+    include = rng.random() < 0.8
+    args = pool[:pos] + ([me] if include else []) + pool[pos:]
+    allow = b"allow-ips " + b" ".join(args)
+    if shape == "many-directives":
+        pre = b" &> ".join(rng.choice([b"cache server:full", b"cache client:60s", b"unknown-ext a b c", b"download", b"cache server:full client:full"])
+                           for _ in range(rng.randrange(5, 40)))
+        line = b"!> " + (pre + b" &> " + allow if rng.random() < 0.5 else allow + b" &> " + pre)
+    elif shape == "long-arg":
+        line = b"!> unknown-ext " + b"y" * rng.choice([300, 509, 600]) + b" &> " + allow + b" &> cache server:full"
+    elif shape == "hide-last":
+        line = b"!> " + allow + b" &> cache server:full &> hide"
+    elif shape == "allow-last":
+        line = b"!> cache server:full &> unknown-ext " + b" ".join(v4[:rng.randrange(1, 40)]) + b" &> " + allow
+    elif shape == "two-lists":
+        line = b"!> " + allow + b" &> cache server:full &> allow-ips " + b" ".join([me] + v4[:rng.randrange(1, 30)])
+    else:
+        line = b"!> " + allow + rng.choice([b"", b"", b" &> cache server:full"])
+    bigger = [e for e in edges if e >= len(line)]
+    if bigger and rng.random() < 0.8:
+        tgt_len = rng.choice(bigger[:4] if near else bigger)
+        if shape in ("hide-last", "allow-last", "two-lists"):
+            # what decides stands at the END of the line: fit in front of it
+            head, sep, tail = line.rpartition(b" &> ")
+            line = _fit(head, tgt_len - len(sep) - len(tail), rng) + sep + tail
+        else:
+            line = _fit(line, tgt_len - (1 if rng.random() < 0.1 else 0), rng)
+    rel = rng.choice([b"long.txt", b"l/list.html", b"ll"])
+    return rel, line, rng.random() < 0.1, listed, (pool if shape in ("v4-list", "mixed-list", "v6-list") else []), shape
+
+
+def long_line_cases(rng, n, tier):
+    """LONG '!> ' lines (theorems guard_line_any_length / long_allow_list_decides: the line has no length limit): allow lists of 1..100
+    addresses (IPv4, IPv6, mixed; the listed client first, in the middle or last), many directives, long arguments, lines fitted to
+    255..257, 511..513, 1023..1025 bytes (4095..4097 in the thorough tier; longer ones: long_line_wire_cases); a 'hide' or the allow list
+    itself may stand at the very end of the line, behind everything else"""
+    cases = []
+    for i in range(n):
+        edges = LINE_EDGES + (LINE_EDGES_4K if tier != "quick" and i % 8 == 0 else [])
+        rel, line, crlf, listed, pool, shape = long_line(rng, edges, kmax=60 if tier == "quick" or i % 8 else 100)
+        files = [xl(xb(b"public/" + rel), xb(content(line, rel, rng, True, crlf=crlf)))]
+        tgt = (b"/" + rel, "long", rel, listed, line)
+        sps = [(b"/" + rel, tgt)] + ([(encode(b"/" + rel, rng.getrandbits(len(rel)), rng), tgt)] if rng.random() < 0.5 else [])
+        twins = []
+        ops = history(rng, sps, extra_addrs=2, twins=twins)
+        # clients that ARE on the list but not the first one of it
+        if pool:
+            other = rng.choice(pool)
+            ops.append(greq(b"/" + rel, addr=(V6 if b":" in other else V4)(other.decode())))
+            ops.append(greq(b"/" + rel, addr=rng.choice(STRANGERS)))
+        cases += mk(rng, files, ops, "long-line/" + shape, both=(i % 3 == 0), twins=[(a, b_, "a" if k_ == "a" else "h") for a, b_, k_ in twins])
+    return cases
+
+
+def long_line_wire_cases(rng, n):
+    """the same files with lines of up to 65537 bytes, over the wire: the harness judges marker leaks and compares the refused answer
+    with the answer for a path that does not exist (no model run is needed for that)"""
+    cases = []
+    for i in range(n):
+        edges = [rng.choice(LINE_EDGES_BIG[2:])] if i % 6 == 0 else (LINE_EDGES_4K + LINE_EDGES_BIG) if i % 2 == 0 else (LINE_EDGES[3:] + LINE_EDGES_4K)
+        rel, line, crlf, listed, pool, shape = long_line(rng, edges, near=False)
+        files = [xl(xb(b"public/" + rel), xb(content(line, rel, rng, True, crlf=crlf)))]
+        hidden, allow = _py_guard(rel, line + b"\n")
+        ops = []
+        who = [rng.choice(SAME_AS_1) if listed == 1 else listed] + [rng.choice(ADDRS[2:] + STRANGERS) for _ in range(3)]
+        if pool:
+            other = rng.choice(pool)
+            who.append((V6 if b":" in other else V4)(other.decode()))
+        who.append(who[0])
+        for a in who:
+            m = rng.choice([b"GET", b"GET", b"GET", b"HEAD"])
+            h = rng.choice([[], [], [(b"range", b"bytes=0-40")], [(b"accept-encoding", b"gzip")], [(b"range", b"bytes=-30")]])
+            sp = b"/" + rel if rng.random() < 0.6 else encode(b"/" + rel, rng.getrandbits(len(rel)), rng)
+            ok = (not hidden) and allow is not None and py_ip(xaddr(a)) in allow
+            if ok:
+                ops.append(wreq(sp, m, a, h, rel, 0))
+            else:
+                ops.append(wreq(b"/zz-none-%d.txt" % len(ops), m, a, h, b"", 0))
+                # (cache-control of the refused answer is allow-ips' own; status and body must be those of the missing page)
+                ops.append(wreq(sp, m, a, h, b"", 0))
+        cases.append(Case("guards.wire", pipe.scenario(pipe.cfg(cache=rng.random() < 0.8, fcache=rng.random() < 0.7, files=files, default_ext=False), ops),
+                          "guards.wire", {"kind": "wire/long-line/%dk" % (len(line) // 1000)}))
+    return cases
+
+
 def generate(rng, tier):
     cases = witnesses(rng) + known_tmpl(rng)
     n = 150 if tier == "quick" else 2400
@@ -635,7 +867,10 @@ def generate(rng, tier):
         twins = []
         ops = history(rng, sp, extra_addrs=2, twins=twins)
         cases += mk(rng, files, ops, "malformed-line", both=False, twins=[(a, b, "a" if k == "a" else "h") for a, b, k in twins])
+    cases += transition_cases(rng, 40 if tier == "quick" else 600)
+    cases += long_line_cases(rng, 36 if tier == "quick" else 500, tier)
     cases += wire_cases(rng, 36 if tier == "quick" else 500)
+    cases += long_line_wire_cases(rng, 12 if tier == "quick" else 120)
     cases += push_cases(rng, 6 if tier == "quick" else 60)
     cases += expiry_cases(rng, 2 if tier == "quick" else 8)
     return cases
@@ -672,6 +907,39 @@ def _scenario(c):
             else:
                 files[p_] = c_
     return files, ops[1], twins
+
+
+def _views(c):
+    """what the server holds (path -> content) at every operation of the history: the files of the scenario, changed by the write
+    operations (L (N 4) rel content); an entry of the file cache (also a stale or a negative one) hides the disk"""
+    cfg, ops = c.x[1]
+    disk, seed, fcache = {}, [], True
+    for e in cfg[1]:
+        if e[1][0][1] == b"files":
+            for f in e[1][1][1]:
+                disk[f[1][0][1]] = f[1][1][1]
+        if e[1][0][1] == b"fcache_seed":
+            seed = [(t[1][0][1], t[1][1][1][0][1] if t[1][1][1] else None) for t in e[1][1][1]]
+        if e[1][0][1] == b"fcache":
+            fcache = e[1][1][1] == 1
+
+    def view():
+        v = dict(disk)
+        if fcache:
+            for p_, c_ in seed:
+                if c_ is None:
+                    v.pop(p_, None)
+                else:
+                    v[p_] = c_
+        return v
+
+    out, cur = [], view()
+    for o in ops[1]:
+        if o[1][0][1] == 4:
+            disk[b"public/" + o[1][1][1]] = o[1][2][1]
+            cur = view()
+        out.append(cur)
+    return out
 
 
 def _markers(reply):
@@ -785,6 +1053,7 @@ def extra_oracle(c, impl):
         return None if impl == "(L)" else "on the wire: " + kv.pretty(xparse(impl), 700)
     try:
         files, ops, twins = _scenario(c)
+        views = _views(c)
         replies = xparse(impl)[1]
     except Exception:
         return None
@@ -795,7 +1064,8 @@ def extra_oracle(c, impl):
             continue
         ip = py_ip(o[1][1])
         for name in _markers(rp):
-            data = files.get(b"public/" + name)
+            # (the file as the server holds it at the moment of this request)
+            data = views[i].get(b"public/" + name)
             if data is None:
                 return "reply %d carries a marker of an unknown file %r" % (i, name)
             hidden, allow = _py_guard(name, data)
